@@ -335,6 +335,9 @@ def rule_nm1(ctx: Ctx) -> RuleResult:
                 # for v in x  /  for i in range(len(x)) with x[i]
                 okterm = (iters[0] == X and item[0] == "compvar") or \
                     (item[0] == "sub" and item[1] == X and item[2][0] == "compvar" and iters[0][0] == "call" and iters[0][1] == ("builtin", "range"))
+                # the terms are a multiset: a set (or dict) comprehension keeps one of several equal terms while len(x) counts them all
+                if isinstance(summed[1], str) and summed[1].lstrip().startswith("{"):
+                    okterm = False
         else:
             apps = [e for e in p.trace if e.k == "mutate" and e.method == "append"]
             its = [e for e in p.trace if e.k == "loopiter"]
